@@ -20,6 +20,7 @@ import time
 from . import common as C
 from . import known as K
 
+BRANCHCOV = set()  # (file, -source line, destination line) of taken conditional jumps (diagnostic mode only)
 LINECOV = set()  # (file relative to the package, line) reached by any worker of this run
 
 
@@ -106,7 +107,11 @@ def run_sharded(prop, cases, wall_per_shard, wall_scale=1):
         for j, (p, fout, ferr, idxs) in enumerate(procs):
             if os.path.exists(fout + ".cov"):
                 try:
-                    LINECOV.update((f, int(l)) for f, l in json.load(open(fout + ".cov")))
+                    for rec in json.load(open(fout + ".cov")):
+                        if len(rec) == 2:
+                            LINECOV.add((rec[0], int(rec[1])))
+                        else:
+                            BRANCHCOV.add(tuple(rec))
                 except (ValueError, OSError):
                     pass
             if os.path.exists(fout):
@@ -344,7 +349,7 @@ def main(argv=None):
     cov["pyxab_source_lines_reached_by_this_run"] = per
     if os.environ.get("PYXABMON_LINECOV_OUT"):
         with open(os.environ["PYXABMON_LINECOV_OUT"], "w") as f:
-            json.dump({"reached": per, "not_reached": missing}, f, indent=1)
+            json.dump({"reached": per, "not_reached": missing, "branches": sorted(BRANCHCOV)}, f, indent=1)
     ev = {
         "property_id": prop, "tier": tier, "seed": int(a.seed), "level": getattr(M, "LEVEL", "exploration"),
         "coverage": cov, "assumptions": M.ASSUMPTIONS, "wall_s": round(wall_s, 2), "violations": len(unlisted),
